@@ -968,6 +968,36 @@ pub fn check_c15(cfg: &Config, res: &CaseResult, acc: &mut Acc) {
         }
     }
     finish_pending(&mut pending, &mut viol);
+    // every emitted value must have passed through the mutation layer: compare the number of
+    // Draw events per kind with the value opcodes of that family in the output (safe mode only:
+    // unsafe TypeConfusion replaces opcodes after the fact)
+    if viol.is_none() && rate == 1.0 && !cfg.unsafe_mut {
+        if let Ok(l) = lex(bytes) {
+            let fam = |names: &[&str]| l.ins.iter().filter(|i| names.contains(&i.op.name)).count() as u64;
+            let emitted = [
+                (ValueKind::Int, fam(&["INT", "LONG", "LONG1", "LONG4", "BININT", "BININT1", "BININT2"])),
+                (ValueKind::Float, fam(&["FLOAT", "BINFLOAT"])),
+                (ValueKind::String, fam(&["STRING", "UNICODE", "SHORT_BINUNICODE", "BINUNICODE", "BINUNICODE8"])),
+                (ValueKind::Bytes, fam(&["BINSTRING", "SHORT_BINSTRING", "SHORT_BINBYTES", "BINBYTES", "BINBYTES8", "BYTEARRAY8"])),
+                (ValueKind::Memo, fam(&["GET", "BINGET", "LONG_BINGET"])),
+            ];
+            for (k, n_out) in emitted {
+                let n_draw = res.events.iter().filter(|e| matches!(e, Event::Draw { kind, .. } if *kind == k)).count() as u64;
+                let any_applicable = cfg.mutators.iter().any(|m| applicable(*m, k, false) || applicable(*m, k, true));
+                if any_applicable && n_draw < n_out {
+                    viol = Some((
+                        format!("rate1_bypassed:{:?}", k),
+                        format!(
+                            "rate 1.0: the output contains {} {:?} values but only {} reached the mutation layer",
+                            n_out, k, n_draw
+                        ),
+                    ));
+                    break;
+                }
+                acc.count("emitted_values_matched_to_draws", n_out);
+            }
+        }
+    }
     if let Some((sig, msg)) = viol {
         let mode = match cfg.entropy {
             Entropy::Seed(_) => "prng",
